@@ -478,6 +478,27 @@ def map_session(col, binpath, rng, tag, scratch):
     # these aircraft never sent a velocity report, so with the heading display on (the default)
     # their dot is still the only blue thing: every other session keeps the default
     opts = ([] if moving else ["--disable-track"]) + ["--disable-icao", "--filter-time", "100000"] + (["--disable-heading"] if idx % 2 == 0 else [])
+    # "anything to the north is drawn above it": also the fixed markers - four --locations at 1.25 d
+    # and four --airports entries at 0.6 d, found on screen by their two-letter labels
+    markers = {}
+    loc_args = []
+    # (labels are text cells and may cover a dot once everything is squeezed together: the sessions
+    # with markers check markers and panning, the others zooming)
+    with_markers = idx % 2 == 1
+    csvp = os.path.join(scratch, f"airports-{tag.replace('#', '-')}.csv")
+    with open(csvp, "w") as f:
+        f.write("icao,iata,name,city,subd,country,elevation,lat,lon,tz\n")
+        for name, brg in (("N", 0), ("E", 90), ("S", 180), ("W", 270)):
+            la, lo = enc.destination(lat, lon, brg, 1.25 * d)
+            loc_args.append("(%s,%.6f,%.6f)" % ("l" + name.lower(), la, lo))
+            markers["l" + name.lower()] = (name, 1.25)
+            la, lo = enc.destination(lat, lon, brg, 0.6 * d)
+            f.write(f"Q{name},A{name},Field {name},Town,ST,US,10.0,{la:.6f},{lo:.6f},Europe/Amsterdam\n")
+            markers["Q" + name] = (name, 0.6)
+    if with_markers:
+        opts += ["--locations"] + loc_args + ["--airports", csvp]
+    else:
+        markers = {}
     sess = session.RadarSession(binpath, plan, lat=lat, lon=lon, opts=opts, rows=60, cols=200, scratch=scratch)
     inp = {"receiver": [lat, lon], "d_km": d, "options": opts, "lines": [l.decode() for l in lines], "tag": tag}
     try:
@@ -557,6 +578,73 @@ def map_session(col, binpath, rng, tag, scratch):
                 print(f"ASPECT {aspect:.3f} tol {tol:.3f} W={W} H={H} groups={groups} lat={lat}", flush=True)
             if abs(aspect - 1.0) > tol:
                 col.add("C18", "C18|map_axes_scaled_differently", f"{2 * d:.0f}/{3 * d:.0f} km east/west cover {groups['E'][1]}/{groups['W'][1]} columns, north/south {groups['N'][1]}/{groups['S'][1]} rows on a canvas of {W}x{H} cells: east-west is stretched by a factor {aspect:.2f} relative to north-south", inp2)
+        # fixed markers: direction and distance like the aircraft next to them
+        per_d = {"N": groups["N"][0], "S": groups["S"][0] / 1.5, "E": groups["E"][0], "W": groups["W"][0] / 1.5}
+        missing, misplaced = [], []
+        for label, (side, mult) in markers.items():
+            pos = None
+            for r in range(top + 1, bottom):
+                line = "".join(cells[r][c][0] for c in range(left + 1, right))
+                j = line.find(label)
+                if j >= 0:
+                    pos = (r, left + 1 + j)
+                    break
+            if pos is None:
+                missing.append(label)
+                continue
+            dr, dc = pos[0] - cr, pos[1] - cc
+            want = mult * per_d[side]
+            along, across = {"N": (-dr, dc), "S": (dr, dc), "E": (dc, dr), "W": (-dc, dr)}[side]
+            if abs(across) > 1 or abs(along - want) > 1.5 + 0.08 * want:
+                misplaced.append(f"{label}: {mult} d to the {side} is drawn {along} cells along and {across} across (expected about {want:.1f} along, 0 across)")
+        col.count("marker_checks", len(markers))
+        if missing or misplaced:
+            col.add("C18", "C18|map_marker_misplaced", f"--locations / --airports markers: not found on the map {missing}; {'; '.join(misplaced[:4])}", inp2)
+        # panning moves the picture by what the title says the centre moved (and nothing else)
+        def centre_in_title():
+            t = next((l for l in sess.p.screen.text()[:3] if "rsadsb/radar" in l), "")
+            m = re.search(r"\((-?\d+\.\d+),(-?\d+\.\d+)\)", t)
+            return (float(m.group(1)), float(m.group(2))) if m else None
+        def blue_now():
+            cs = sess.p.screen.cells
+            return sorted((r, c) for r in range(top + 1, bottom) for c in range(left + 1, right) if cs[r][c][1] == 4 and BRAILLE(cs[r][c][0]))
+        c0 = centre_in_title()
+        rows_per_deg_lat = None
+        for keyname, n_keys, axis in (("Up", 40, 0), ("Right", 10, 1)):
+            b0 = blue_now()
+            t0 = centre_in_title()
+            for _ in range(n_keys):
+                sess.key(keyname)
+                sess.p.pump(0.01)
+            sess.settle(0.5)
+            b1 = blue_now()
+            t1 = centre_in_title()
+            col.count("pan_stages_checked")
+            if t0 is None or t1 is None or len(b0) != len(b1) or not b0:
+                continue  # dots pushed off the canvas or title not readable: nothing to compare
+            # the axis that is not panned keeps its coordinate exactly: pair the dots along it
+            key = (lambda q: (q[1], q[0])) if axis == 0 else (lambda q: (q[0], q[1]))
+            deltas = {(y[0] - x[0], y[1] - x[1]) for x, y in zip(sorted(b0, key=key), sorted(b1, key=key))}
+            drs = sorted(dv[0] for dv in deltas)
+            dcs = sorted(dv[1] for dv in deltas)
+            moved_title = t1[axis] - t0[axis]
+            if axis == 0:
+                want = moved_title * 111.19 * (groups["N"][1] / (2 * d))  # north of the old centre: the dots go down
+                got, other = drs, dcs
+            else:
+                dlon = (moved_title + 540) % 360 - 180
+                want = -dlon * 111.19 * math.cos(math.radians(lat)) * (groups["E"][1] / (2 * d))
+                got, other = dcs, drs
+            if abs(lat) > 70:
+                continue  # the stretched projection near the poles makes the linear estimate useless
+            if got[-1] - got[0] > 2 or max(abs(o) for o in other) > 1 or abs((got[0] + got[-1]) / 2 - want) > 2.0 + 0.15 * abs(want) or (abs(want) >= 2 and got[0] * want <= 0):
+                col.add("C18", f"C18|map_pan_inconsistent|{keyname}", f"{n_keys} x {keyname}: the title moved the centre from {t0} to {t1}; the aircraft moved by rows {drs[0]}..{drs[-1]} and columns {dcs[0]}..{dcs[-1]} (expected about {want:.1f} {'rows' if axis == 0 else 'columns'}, the other axis unchanged)", inp2)
+        sess.key("Enter")
+        sess.settle(0.5)
+        if blue_now() != sorted(blue):
+            col.add("C18", "C18|map_reset_does_not_restore_view", f"aircraft cells after panning and reset differ from before", inp2)
+        if with_markers:
+            return
         # zooming changes the scale only: after three zoom-outs all eight aircraft are still there,
         # in the same directions and proportions, nearer to the centre; after five zoom-ins (net two
         # in) whoever is still on the canvas is in its direction, farther out; reset: the first picture
